@@ -246,15 +246,19 @@ theorem LK.mono_now {T0 now now' : Nat} {ex : Option Nat} {a a' : Agent} (h : LK
 
 /-! ## timeouts -/
 
-/-- a silence of `d` ns trips neither the disconnected nor the failed timeout -/
+/-- a silence of `d` ns trips neither the disconnected nor the failed timeout — and the agent is not configured to
+renominate by itself (`WithAutomaticRenomination` together with `WithRenomination`): the liveness statements are about
+ordinary ICE, in which a connected controlling agent sends keepalives on its selected pair only and never a nomination
+value (with the automatic option the pair it ends on depends on the round-trip times of the schedule) -/
 def QuietFor (cfg : Config) (d : Nat) : Prop :=
   (cfg.disconnectedTimeout = 0 ∨ d ≤ cfg.disconnectedTimeout) ∧
-  (cfg.failedTimeout = 0 ∨ d ≤ cfg.failedTimeout + cfg.disconnectedTimeout)
+  (cfg.failedTimeout = 0 ∨ d ≤ cfg.failedTimeout + cfg.disconnectedTimeout) ∧
+  (cfg.autoRenom && cfg.enableRenomination) = false
 
 instance (cfg : Config) (d : Nat) : Decidable (QuietFor cfg d) := by unfold QuietFor; infer_instance
 
 theorem QuietFor.mono {cfg : Config} {d d' : Nat} (h : QuietFor cfg d) (hd : d' ≤ d) : QuietFor cfg d' :=
-  ⟨h.1.imp id (fun x => Nat.le_trans hd x), h.2.imp id (fun x => Nat.le_trans hd x)⟩
+  ⟨h.1.imp id (fun x => Nat.le_trans hd x), h.2.1.imp id (fun x => Nat.le_trans hd x), h.2.2⟩
 
 /-- no timeout of the agent fires at a tick in `[T0, H]`: the checking deadline lies beyond `H`, and the remote
 candidate of the selected pair was heard recently enough. -/
